@@ -894,24 +894,21 @@ Section Proofs.
   (** a denomination that converts before an operation still converts after it, through the evolved pair,
       unless the operation explicitly removed / disabled that pair (or the module) *)
   Lemma convert_back_possible s o d p id :
-    repaired -> v_reject_hex v = true -> Inv s -> NoHex s -> admissible s o ->
+    repaired -> v_reject_hex v = true -> v_mint_direct v = true -> Inv s -> NoHex s -> admissible s o ->
     minting_enabled v s d d = Ok p -> pair_id p = Ok id ->
     explicit s o id \/
     exists p', minting_enabled v (fst (step s o)) d d = Ok p' /\ evolved p p'.
   Proof.
-    intros R VH I N A H Ip.
+    intros R VH VM I N A H Ip.
     pose proof (step_inv _ _ R I A) as [C' _]. pose proof (step_nohex _ _ R VH I N A) as N'.
     destruct I as [C F].
     assert (X : st_enable s = true /\ p_enabled p = true /\ aget id (st_pairs s) = Some p /\ In d (p_denoms p)).
     { apply minting_enabled_ok in H as (En & Ep & i & Ne & Et & Hp & Hd).
-      destruct (c_pair _ _ _ C _ _ Hp) as (_ & Ii & _). rewrite Ip in Ii. inversion Ii; subst i.
+      destruct (c_pair _ _ _ C _ _ Hp) as (_ & Ii & _).
+      assert (Ei : i = id) by (rewrite Ip in Ii; inversion Ii; reflexivity). rewrite Ei in *. clear Ei Ii.
       split; [exact En|]. split; [exact Ep|]. split; [exact Hp|].
       assert (Y : aget d (st_denom s) = Some id).
-      { destruct id as [|b r]; [contradiction|]. destruct (v_mint_direct v); [apply get0_cons; exact Hd|].
-        unfold get_token_pair_id in Hd, Et. destruct (is_hex_address d) eqn:Eh; [|apply get0_cons; exact Hd].
-        (* a hex-looking d would have to be in the address index AND (as token) ... use NoHex via the pair *)
-        apply get0_cons in Hd. destruct (c_erc20 _ _ _ C _ _ Hd) as (q & Hq & _). rewrite Hp in Hq. inversion Hq; subst q.
-        exfalso. clear - Eh. exact (False_rect _ (hex_denom_impossible_placeholder Eh)). }
+      { rewrite VM in Hd. destruct id as [|b r]; [exfalso; apply Ne; reflexivity|]. apply get0_cons; exact Hd. }
       destruct (c_denom _ _ _ C _ _ Y) as (q & Hq & Iq). rewrite Hp in Hq. inversion Hq; subst q. exact Iq. }
     destruct X as (En & Ep & Hp & Hd).
     destruct (step_tracks _ o _ _ R (conj C F) A Hp) as [E|[(id' & p' & Hp' & Ev) En']]; [left; exact E | right].
@@ -919,4 +916,195 @@ Section Proofs.
     apply (minting_enabled_complete _ id'); try assumption; [apply En'; exact En | rewrite Een; exact Ep | apply Inc; exact Hd].
   Qed.
 
+  (** * The executable monitor [consistent_b] decides [Consistent] *)
+
+  Lemma nodup_b_spec l : nodup_b l = true <-> NoDup l.
+  Proof.
+    induction l as [|x l IH]; cbn; [split; [constructor | reflexivity]|].
+    rewrite andb_true_iff, negb_true_iff, IH, existsb_eqb_nIn. split.
+    - intros [A B0]. constructor; assumption.
+    - intro H. inversion H; subst. split; assumption.
+  Qed.
+
+  Lemma pair_ok_spec s id p :
+    pair_ok hid s id p = true <->
+    (pair_wf p /\ pair_id p = Ok id /\ aget (addr_of (p_text p)) (st_erc20 s) = Some id /\
+     (forall d, In d (p_denoms p) -> aget d (st_denom s) = Some id)).
+  Proof.
+    unfold pair_ok, pair_wf, Registry.pair_id. destruct (p_denoms p) as [|d0 ds] eqn:Eds.
+    - split; [discriminate | intros ((X & _) & _); contradiction].
+    - rewrite !andb_true_iff, nodup_b_spec, bytes_eqb_eq, forallb_forall. split.
+      + intros ((((ND & Hx) & Ei) & He) & Hd). subst id. split; [split; [discriminate | split; assumption]|]. split; [reflexivity|]. split.
+        * destruct (aget (addr_of (p_text p)) (st_erc20 s)); [apply bytes_eqb_eq in He; subst; reflexivity | discriminate].
+        * intros d I0. specialize (Hd _ I0). destruct (aget d (st_denom s)); [apply bytes_eqb_eq in Hd; subst; reflexivity | discriminate].
+      + intros ((_ & ND & Hx) & Ei & He & Hd). inversion Ei; subst id. repeat split; try assumption.
+        * rewrite He. apply bytes_eqb_refl.
+        * intros d I0. rewrite (Hd _ I0). apply bytes_eqb_refl.
+  Qed.
+
+  Lemma consistent_b_sound s : consistent_b hid s = true -> Consistent s.
+  Proof.
+    unfold consistent_b. rewrite !andb_true_iff, !forallb_forall. intros [[HP HE] HD]. split.
+    - intros id p H. specialize (HP _ (aget_in_keys _ _ _ H)). rewrite H in HP. apply pair_ok_spec in HP. exact HP.
+    - intros a id H. specialize (HE _ (aget_in_keys _ _ _ H)). rewrite H in HE.
+      destruct (aget id (st_pairs s)) as [p|]; [|discriminate]. exists p. split; [reflexivity | apply bytes_eqb_eq; exact HE].
+    - intros d id H. specialize (HD _ (aget_in_keys _ _ _ H)). rewrite H in HD.
+      destruct (aget id (st_pairs s)) as [p|]; [|discriminate]. exists p. split; [reflexivity | apply existsb_eqb_In; exact HD].
+  Qed.
+
+  Lemma consistent_b_complete s : Consistent s -> consistent_b hid s = true.
+  Proof.
+    intro C. unfold consistent_b. rewrite !andb_true_iff, !forallb_forall. split; [split|].
+    - intros id _. destruct (aget id (st_pairs s)) as [p|] eqn:H; [|reflexivity]. apply pair_ok_spec. exact (c_pair _ _ _ C _ _ H).
+    - intros a _. destruct (aget a (st_erc20 s)) as [id|] eqn:H; [|reflexivity].
+      destruct (c_erc20 _ _ _ C _ _ H) as (p & Hp & A). rewrite Hp. apply bytes_eqb_eq. exact A.
+    - intros d _. destruct (aget d (st_denom s)) as [id|] eqn:H; [|reflexivity].
+      destruct (c_denom _ _ _ C _ _ H) as (p & Hp & I0). rewrite Hp. apply existsb_eqb_In. exact I0.
+  Qed.
+
+  Lemma nohex_b_spec s : nohex_b s = true <-> NoHex s.
+  Proof.
+    unfold nohex_b, NoHex. rewrite forallb_forall. split.
+    - intros H d id Hd. specialize (H _ (aget_in_keys _ _ _ Hd)). apply negb_true_iff in H. exact H.
+    - intros H d Hd. apply negb_true_iff. apply in_map_iff in Hd as [[k x] [<- Hin]]. cbn.
+      destruct (aget k (st_denom s)) eqn:E; [exact (H _ _ E)|].
+      exfalso. clear - E Hin. induction (st_denom s) as [|[k' v'] l IH]; [destruct Hin|].
+      cbn in E. destruct (bytes_eqb_spec k k') as [->|N]; [discriminate|].
+      destruct Hin as [X|X]; [inversion X; congruence | exact (IH X E)].
+  Qed.
+
 End Proofs.
+
+(** * The statements about the code at /repo HEAD ([head]) *)
+Section Head.
+  Variable hid : bytes -> bytes -> bytes.
+  Variable canon : bytes -> bytes.
+  Variable evm_denom : bytes.
+  Hypothesis hid_inj : forall t d t' d', hid t d = hid t' d' -> t = t' /\ d = d'.
+  Hypothesis hid_nonempty : forall t d, hid t d <> [].
+  Hypothesis canon_hex : forall a, is_hex_address (canon a) = true.
+  Hypothesis canon_addr : forall a, length a = 20%nat -> addr_of (canon a) = a.
+
+  Notation step := (step hid canon evm_denom head).
+  Notation run := (run hid canon evm_denom head).
+  Notation admissible := (admissible head).
+  Notation admissible_run := (admissible_run hid canon evm_denom head).
+
+  (** self-consistent, and no registered denomination reads as a hex address *)
+  Definition Good (s : state) : Prop := Consistent hid s /\ NoHex s.
+
+  Lemma head_repaired : repaired head.
+  Proof. repeat split. Qed.
+
+  Lemma good_inv s : Good s -> Inv hid head s.
+  Proof. intros [C _]. split; [exact C | left; reflexivity]. Qed.
+
+  Lemma good_empty : Good empty_state.
+  Proof. split; [apply consistent_empty | intros d id H; discriminate]. Qed.
+
+  Lemma step_good s o : Good s -> admissible s o -> Good (fst (step s o)).
+  Proof.
+    intros G A. split.
+    - exact (proj1 (step_inv hid canon evm_denom hid_inj canon_hex canon_addr head s o head_repaired (good_inv _ G) A)).
+    - exact (step_nohex hid canon evm_denom hid_inj canon_addr head s o head_repaired eq_refl (good_inv _ G) (proj2 G) A).
+  Qed.
+
+  Lemma registry_consistent os : forall s, Good s -> admissible_run s os -> Good (run s os).
+  Proof.
+    induction os as [|o r IH]; intros s G A; cbn; [exact G|].
+    destruct A as [A1 A2]. apply IH; [apply step_good; assumption | exact A2].
+  Qed.
+
+  Lemma registry_consistent_from_empty os : admissible_run empty_state os -> Good (run empty_state os).
+  Proof. apply registry_consistent. exact good_empty. Qed.
+
+  (** the code with the pinned [Name] test (but the repaired update and genesis validation): consistency is
+      preserved together with "a registered denomination has bank metadata" *)
+  Lemma registry_consistent_masked v os s :
+    repaired v -> v_test_base v = false ->
+    Consistent hid s -> MetaInv s -> Registry.admissible_run hid canon evm_denom v s os ->
+    Consistent hid (Registry.run hid canon evm_denom v s os) /\ MetaInv (Registry.run hid canon evm_denom v s os).
+  Proof.
+    intros R VT C M A.
+    destruct (run_inv hid canon evm_denom hid_inj canon_hex canon_addr v os s R (conj C (or_intror M)) A) as [C' [F|F]].
+    - congruence.
+    - split; assumption.
+  Qed.
+
+  Lemma no_denom_in_two_pairs_head s id1 p1 id2 p2 d :
+    Good s -> aget id1 (st_pairs s) = Some p1 -> aget id2 (st_pairs s) = Some p2 ->
+    In d (p_denoms p1) -> In d (p_denoms p2) -> id1 = id2 /\ p1 = p2.
+  Proof.
+    intros [C _] H1 H2 I1 I2. assert (E : id1 = id2) by exact (no_denom_in_two_pairs hid _ _ _ _ _ _ _ _ C H1 H2 I1 I2).
+    split; [exact E | congruence].
+  Qed.
+
+  Lemma no_contract_in_two_pairs_head s id1 p1 id2 p2 :
+    Good s -> aget id1 (st_pairs s) = Some p1 -> aget id2 (st_pairs s) = Some p2 ->
+    addr_of (p_text p1) = addr_of (p_text p2) -> id1 = id2 /\ p1 = p2.
+  Proof.
+    intros [C _] H1 H2 A. assert (E : id1 = id2) by exact (no_address_in_two_pairs hid _ _ _ _ _ _ _ C H1 H2 A).
+    split; [exact E | congruence].
+  Qed.
+
+  Lemma index_entries_point_to_pairs s :
+    Good s ->
+    (forall a id, aget a (st_erc20 s) = Some id -> exists p, aget id (st_pairs s) = Some p /\ addr_of (p_text p) = a) /\
+    (forall d id, aget d (st_denom s) = Some id -> exists p, aget id (st_pairs s) = Some p /\ In d (p_denoms p)).
+  Proof. intros [C _]. split; [exact (c_erc20 _ _ _ _ C) | exact (c_denom _ _ _ _ C)]. Qed.
+
+  Lemma resolvable_head s id p :
+    Good s -> aget id (st_pairs s) = Some p ->
+    pair_id hid p = Ok id /\ get_token_pair_id s (p_text p) = id /\ forall d, In d (p_denoms p) -> get_token_pair_id s d = id.
+  Proof.
+    intros [C N] H. destruct (resolvable hid s id p C N H) as [A B0].
+    split; [exact (proj1 (proj2 (c_pair _ _ _ _ C _ _ H))) | split; assumption].
+  Qed.
+
+  Lemma minting_enabled_sound_head s token denom p :
+    Good s -> minting_enabled head s token denom = Ok p ->
+    st_enable s = true /\ p_enabled p = true /\ In denom (p_denoms p) /\
+    exists id, aget id (st_pairs s) = Some p /\ get_token_pair_id s token = id.
+  Proof. intros [C _]. apply (minting_enabled_sound hid head s token denom p C eq_refl). Qed.
+
+  Lemma minting_enabled_complete_head s id p d :
+    Good s -> st_enable s = true -> aget id (st_pairs s) = Some p -> p_enabled p = true -> In d (p_denoms p) ->
+    minting_enabled head s d d = Ok p /\ minting_enabled head s (p_text p) d = Ok p.
+  Proof. intros [C N]. apply (minting_enabled_complete hid hid_nonempty head s id p d C N). Qed.
+
+  Lemma convert_back_possible_head s o d p id :
+    Good s -> admissible s o -> minting_enabled head s d d = Ok p -> pair_id hid p = Ok id ->
+    explicit hid head s o id \/
+    exists p', minting_enabled head (fst (step s o)) d d = Ok p' /\ evolved p p'.
+  Proof.
+    intros G A. apply (convert_back_possible hid canon evm_denom hid_inj hid_nonempty canon_hex canon_addr head s o d p id
+                         head_repaired eq_refl eq_refl (good_inv _ G) (proj2 G) A).
+  Qed.
+
+  (** a genesis accepted by [Validate] imports into a self-consistent registry *)
+  Lemma genesis_consistent ps :
+    validate_genesis head [] [] ps = Ok tt ->
+    exists s', init_genesis hid empty_state ps = Ok s' /\ Good s'.
+  Proof.
+    intro H.
+    destruct (init_genesis_cons hid hid_inj head ps empty_state [] [] eq_refl eq_refl H (consistent_empty hid)) as (s' & Hs & C & _ & _ & Hx).
+    - intros a id X. discriminate.
+    - intros d id X. discriminate.
+    - exists s'. split; [exact Hs|]. split; [exact C|]. refine (Hx eq_refl _). intros d id X. discriminate.
+  Qed.
+
+  (** the executable monitors accept every state the model can reach *)
+  Lemma monitor_accepts_model os s :
+    Good s -> admissible_run s os -> consistent_b hid (run s os) = true /\ nohex_b (run s os) = true.
+  Proof.
+    intros G A. destruct (registry_consistent os s G A) as [C N].
+    split; [apply consistent_b_complete; exact C | apply nohex_b_spec; exact N].
+  Qed.
+
+  Lemma monitor_decides s : consistent_b hid s = true /\ nohex_b s = true <-> Good s.
+  Proof.
+    split.
+    - intros [A B0]. split; [apply consistent_b_sound; exact A | apply nohex_b_spec; exact B0].
+    - intros [C N]. split; [apply consistent_b_complete; exact C | apply nohex_b_spec; exact N].
+  Qed.
+End Head.
